@@ -66,7 +66,9 @@ class _Interp(Base):
         npts = rng.randint(1, 5)
         pts = []
         for _ in range(npts):
-            pts.append([float(Fraction(rng.randint(-8, 8 * (n + 1)), 8) * Fraction(dj)) for n, dj in zip(sh, dist)])
+            far = rng.random() < 0.3               # several periods away, negative, beyond the upper edge
+            pts.append([float(Fraction(rng.randint(-16 * n, 24 * n) if far else rng.randint(-8, 8 * (n + 1)), 8) * Fraction(dj))
+                        for n, dj in zip(sh, dist)])
         return dict(cls=self.name, doms=doms, points=pts, dtype=_pick_dtype(rng, "fc"))
 
     def malformed(self, rng):
@@ -91,7 +93,8 @@ class _Interp(Base):
                     points=[[U.fr(v) for v in p] for p in case["points"]])
 
     def extra_oracle(self, case, op, rng):
-        """documented: exact for multilinear functions; at grid points the grid value"""
+        """documented: exact for multilinear functions; at grid points the grid value; periodic multilinear definition
+        evaluated independently (exact rationals) at the case's own points and at fresh ones far outside the grid"""
         import nifty.cl as ift
         doms = case["doms"]
         sh = _fullshape(doms)
@@ -125,7 +128,60 @@ class _Interp(Base):
                     f"(got {got.tolist()}, want {want.tolist()})", "multilinear")
         if got[0] != nodes[tuple(int(u) for u in U8[0])]:
             return ("interpolation at a grid point differs from the grid value", "gridpoint")
+        # --- the documented definition, independently, with periodic wrapping: positions below zero, beyond the upper edge,
+        #     exactly on nodes, several periods away (multiples of dist/8 in [-2·n·dist, 3·n·dist]) — exact (class E)
+        field = np.array([float(rng.randint(-4, 4)) for _ in range(int(np.prod(sh)))]).reshape(sh)
+        fresh = []
+        for k in range(6):
+            p = []
+            for n in sh:
+                r = rng.random()
+                if r < 0.35:
+                    u = Fraction(rng.randint(-16 * n, -1), 8)                       # negative
+                elif r < 0.55:
+                    u = Fraction(rng.randint(8 * n, 24 * n), 8)                     # beyond the upper edge
+                elif r < 0.7:
+                    u = Fraction(rng.randint(-2 * n, 3 * n))                        # exactly on a (wrapped) node
+                else:
+                    u = Fraction(rng.randint(-16 * n, 24 * n), 8)
+                p.append(u)
+            fresh.append(p)
+        own = [[Fraction(v) / Fraction(dj) for v, dj in zip(pt, dist)] for pt in case["points"]]
+        for label, UU in (("own", own), ("fresh", fresh)):
+            ptsx = np.array([[float(u * Fraction(dj)) for u, dj in zip(p, dist)] for p in UU], dtype=np.float64).T
+            opx = op if label == "own" else ift.LinearInterpolator(dom, ptsx)
+            gotx = opx(ift.makeField(dom, field)).asnumpy()
+            wantx = np.array([float(_periodic_multilinear(field, sh, p)) for p in UU])
+            if not np.array_equal(gotx, wantx):
+                i = int(np.argmax(gotx != wantx))
+                return (f"interpolation at x/dist = {[str(u) for u in UU[i]]} gives {gotx[i]!r}, the documented periodic "
+                        f"multilinear sum is {wantx[i]!r}", "periodic-definition")
+            # invariance under a shift of every coordinate by one period n_d·dist_d (either direction)
+            sgn = rng.choice([-1, 1])
+            ptss = np.array([[float((u + sgn * n) * Fraction(dj)) for u, dj, n in zip(p, dist, sh)] for p in UU]).T
+            gots = ift.LinearInterpolator(dom, ptss)(ift.makeField(dom, field)).asnumpy()
+            if not np.array_equal(gots, gotx):
+                return (f"interpolation changes when every coordinate is shifted by {sgn} period(s)", "period-shift")
+            # constants are reproduced exactly (weights add up to one)
+            gc = opx(ift.makeField(dom, np.full(sh, 3.0))).asnumpy()
+            if not np.array_equal(gc, np.full(len(UU), 3.0)):
+                return (f"interpolation of the constant 3 gives {gc.tolist()}", "constant")
         return None
+
+
+def _periodic_multilinear(field, sh, u):
+    """Σ_{e∈{0,1}^d} Π_d w_d · field[(floor(u_d)+e_d) mod n_d], w = 1−c or c, c = u − floor(u); `u` = x/dist as Fractions"""
+    import itertools
+    base = [math.floor(x) for x in u]
+    c = [x - b for x, b in zip(u, base)]
+    tot = Fraction(0)
+    for e in itertools.product((0, 1), repeat=len(sh)):
+        w = Fraction(1)
+        for ed, cd in zip(e, c):
+            w *= cd if ed else 1 - cd
+        if w:
+            tot += w * Fraction(field[tuple((b + ed) % n for b, ed, n in zip(base, e, sh))])
+    return tot
 
 
 class _Regrid35(type(C02_CLASSES["RegriddingOperator"])):
@@ -190,6 +246,31 @@ class _Pad35(type(C02_CLASSES["FieldZeroPadder"])):
             return ("plain zero padding changes the sum of the data", "pad-sum")
         if np.count_nonzero(y) < np.count_nonzero(x):
             return ("zero padding lost input values", "pad-lost")
+        # documented placement, axis by axis: plain = data first, zeros behind; central = the first n//2+1 entries in front,
+        # the last n//2 entries at the end, zeros in the middle (N = n+1, even and odd n included by the generator)
+        doms = case["doms"]
+        sp = case["space"] if case["space"] is not None else 0
+        a0 = sum(len(d["shape"]) for d in doms[:sp])
+        ref = x
+        for k, N in enumerate(case["new_shape"]):
+            ax = a0 + k
+            n = ref.shape[ax]
+            if N == n:
+                continue
+            shp = list(ref.shape)
+            shp[ax] = N
+            z = np.zeros(shp)
+            sl = lambda a, b: (slice(None),) * ax + (slice(a, b),)
+            if case["central"]:
+                ny = n // 2
+                z[sl(0, ny + 1)] = ref[sl(0, ny + 1)]
+                if ny:
+                    z[sl(N - ny, N)] = ref[sl(n - ny, n)]
+            else:
+                z[sl(0, n)] = ref
+            ref = z
+        if not np.array_equal(y, ref):
+            return ("zero padding does not place the data as documented", "pad-definition")
         return None
 
 
@@ -207,10 +288,23 @@ def _gen_los(rng):
     for _ in range(nlos):
         s, e = [], []
         par = rng.randrange(nd) if (nd > 1 and rng.random() < 0.25) else None     # axis-parallel in one coordinate
+        mode = rng.choice(["in", "in", "wide", "wide", "corner", "out"])
         for j in range(nd):
             L = shape[j] * Fraction(dist[j])
-            a = Fraction(rng.randint(-20, 117), 97) * L
-            b = Fraction(rng.randint(-20, 117), 97) * L
+            if mode == "in":                      # mostly inside, some slightly outside
+                a = Fraction(rng.randint(-20, 117), 97) * L
+                b = Fraction(rng.randint(-20, 117), 97) * L
+            elif mode == "wide":                  # start and end anywhere in [-1.5 L, 2.5 L]: crossing, entering, leaving
+                a = Fraction(rng.randint(-145, 242), 97) * L
+                b = Fraction(rng.randint(-145, 242), 97) * L
+            elif mode == "corner":                # from outside one corner region towards the opposite one
+                lowa = rng.random() < 0.5
+                a = Fraction(rng.randint(-60, -1) if lowa else rng.randint(98, 160), 97) * L
+                b = Fraction(rng.randint(98, 160) if lowa else rng.randint(-60, -1), 97) * L
+            else:                                 # entirely outside (same side on at least this axis, sometimes all axes)
+                side = rng.random() < 0.5
+                a = Fraction(rng.randint(-120, -1) if side else rng.randint(98, 220), 97) * L
+                b = Fraction(rng.randint(-120, -1) if side else rng.randint(98, 220), 97) * L
             if par == j:
                 b = a
             s.append(str(a))
@@ -333,12 +427,14 @@ def _los_compare(ctx, case, m, op, R):
     return bool(np.any(M != 0)), False
 
 
-def _run_los(ctx, n, gens=None):
-    gens = gens or [_gen_los]
-    cases = [gens[i % len(gens)](ctx.rng) for i in range(n)]
+def _los_cases(ctx, n):
+    cases = [_gen_los(ctx.rng) for _ in range(n)]
     for c in cases:
         c["eps"] = LOS_EPS
-    outs = ctx.model(DRIVER, cases)
+    return cases
+
+
+def _los_process(ctx, cases, outs):
     for case, m in zip(cases, outs):
         ctx.stat("cls:LOSResponse")
         ctx.stat("los-ndim:%d" % len(case["shape"]))
@@ -355,6 +451,7 @@ def _run_los(ctx, n, gens=None):
             continue
         nontrivial, _ = _los_compare(ctx, case, m, op, R)
         ctx.case(case, nontrivial)
+        ctx.stat("los-hits-grid" if nontrivial else "los-misses-grid")
         r = los_oracle(case)
         if r is not None:
             ctx.counterexample(case, r[0], r[1])
@@ -374,7 +471,14 @@ def _gen_nft(rng):
     nd = len(shape)
     dist = [rng.choice([0.1, 0.5, 1.0, 0.37, 2.0]) for _ in range(nd)]
     npts = rng.randint(1, 5)
-    pos = [[round(rng.uniform(-1.5, 1.5) / d, 6) for d in dist] for _ in range(npts)]
+    def coord(d):
+        r = rng.random()
+        if r < 0.6:
+            return round(rng.uniform(-1.5, 1.5) / d, 6)
+        if r < 0.8:
+            return round(rng.uniform(-7.5, 7.5) / d, 6)                     # several periods away
+        return rng.choice([0.0, 1.0, -1.0, 0.5, -0.5, 2.0, -3.0]) / d      # exactly on the period boundary / half period
+    pos = [[coord(d) for d in dist] for _ in range(npts)]
     eps = rng.choice([1e-5, 1e-8, 2e-10])
     seed = rng.randrange(1 << 30)
     return dict(cls=kind, shape=shape, dist=dist, pos=pos, eps=eps, seed=seed)
@@ -492,26 +596,33 @@ def nft_oracle(case):
             scale = np.abs(g).sum() * (1 + np.abs(K[0]).max() * 10) + 1
             if abs(lhs - rhs) > 1e3 * eps * scale * 10 + 1e-8:
                 return (f"VariablePositionNufft Jacobian: Re<y,Jx> = {lhs} but Re<J^H y,x> = {rhs}", sig("adjoint"))
-            h = 1e-6
-            xp = ift.MultiField.from_dict({"grid": x["grid"], "coord": x["coord"] + h * dx["coord"]}, domain=op.domain)
-            fd = (op(xp).asnumpy() - got) / h
+            # the coordinate part of the Jacobian against the explicit derivative of the Fourier sum
+            #   d/dpos_{j,d} Σ_k g_k e^{-iθ_kj} = Σ_k g_k (-i κ_d 2π dst_d) e^{-iθ_kj}
+            # (a finite difference is useless here: the kernel error ~eps is not smooth across a period boundary, so
+            #  (f(x+h)-f(x))/h carries noise eps·Σ|g|/h)
             dx0 = ift.MultiField.from_dict({"grid": 0 * dx["grid"], "coord": dx["coord"]}, domain=op.domain)
             an = jac(dx0).asnumpy()
-            if np.abs(fd - an).max() > 1e-3 * (np.abs(an).max() + 1) + 1e4 * eps * scale / 1.0:
-                return ("VariablePositionNufft: coordinate Jacobian differs from the finite difference "
-                        f"({np.abs(fd - an).max():.3g})", sig("jacobian"))
+            dxc = dx["coord"].asnumpy()
+            wantj = np.zeros(len(pos), dtype=np.complex128)
+            for j, p in enumerate(pos):
+                ph = np.exp(-1j * sum(K[d] * (2 * np.pi * p[d] * dist[d]) for d in range(len(shape))))
+                for d in range(len(shape)):
+                    wantj[j] += dxc[j, d] * np.sum(g * (-1j * K[d] * 2 * np.pi * dist[d]) * ph)
+            amp = sum(np.abs(K[d]).max() * 2 * np.pi * dist[d] for d in range(len(shape))) * max(np.abs(dxc).max(), 1.0)
+            tolj = 100 * eps * np.abs(g).sum() * (amp + 1) + 1e-9
+            if np.abs(an - wantj).max() > tolj:
+                return ("VariablePositionNufft: coordinate Jacobian differs from the derivative of the explicit Fourier sum "
+                        f"by {np.abs(an - wantj).max():.3g} (tol {tolj:.3g})", sig("jacobian"))
     except Exception as e:
         return (f"{kind}: raised {type(e).__name__}: {str(e)[:120]}", sig("apply-error", error=type(e).__name__))
     return None
 
 
 # ------------------------------------------------------------------------------------------------ NFT on a rational lattice
-def _run_lattice(ctx, n):
+def _lattice_process(ctx, cases, outs):
     """positions with pos·dst = a/M: the Lean model (Model/Nft.lean) gives E·x and E^H·y exactly as polynomials in
     ω = e^{2πi/M}; the harness evaluates them numerically and compares the real operators at the epsilon-dependent
     tolerance (class T); the exponent table is cross-checked in integers"""
-    cases = [NFT.gen_lattice(ctx.rng) for _ in range(n)]
-    outs = ctx.model(DRIVER, [NFT.model_line(c) for c in cases])
     for case, out in zip(cases, outs):
         ctx.stat("cls:lattice-" + case["cls"])
         ctx.stat("lattice-M:%d" % case["M"])
@@ -526,6 +637,15 @@ def _run_lattice(ctx, n):
         r = nft_oracle(case)                     # model-free: explicit Python Fourier sums on the real code
         if r is not None:
             ctx.counterexample(case, r[0], r[1])
+
+
+def _run_los_and_lattice(ctx, nlos, nlat):
+    """one driver call for both streams (every `lean --run` start costs seconds)"""
+    lc = _los_cases(ctx, nlos)
+    nc = [NFT.gen_lattice(ctx.rng) for _ in range(nlat)]
+    outs = ctx.model(DRIVER, lc + [NFT.model_line(c) for c in nc])
+    _los_process(ctx, lc, outs[:len(lc)])
+    _lattice_process(ctx, nc, outs[len(lc):])
 
 
 # ------------------------------------------------------------------------------------------------ nifty.re sampling LOS
@@ -602,7 +722,7 @@ def shrink(case):
 
 def run(ctx):
     E.run_table(ctx, CLASSES, DRIVER, ctx.n(24, 400), ctx.n(4, 30), "C35")
-    _run_los(ctx, ctx.n(30, 800))
+    _run_los_and_lattice(ctx, ctx.n(30, 800), ctx.n(12, 600))
     for _ in range(ctx.n(120, 1500)):
         c = _gen_nft(ctx.rng)
         ctx.stat("cls:" + c["cls"])
@@ -610,7 +730,6 @@ def run(ctx):
         r = nft_oracle(c)
         if r is not None:
             ctx.counterexample(c, r[0], r[1])
-    _run_lattice(ctx, ctx.n(12, 600))
     for _ in range(ctx.n(4, 100)):
         c = _gen_sampling(ctx.rng)
         ctx.stat("cls:" + c["cls"])
